@@ -178,7 +178,13 @@ def _known_none(p, t):
     # d.get(k) where the path has established that k is not in d
     nones += [("get", a[2], a[1]) for a, v in p.valuation.items()
               if a[0] == "contains" and v is False]
-    if not nones:
+    # a term the path has established to equal a string constant *is* that
+    # constant where it is used (`'handle_' + name` under name == 'define')
+    eqs = [(a[1], a[2]) for a, v in p.valuation.items()
+           if a[0] == "eq" and v is True and A.is_const(a[2])
+           and isinstance(a[2][1], str) and isinstance(a[1], tuple)
+           and a[1][0] != "const"]
+    if not nones and not eqs:
         return t
 
     def sub(x):
@@ -187,9 +193,15 @@ def _known_none(p, t):
         for n in nones:
             if x is n or (len(x) == len(n) and x[0] == n[0] and _eq(x, n)):
                 return A.const(None)
+        for n, c in eqs:
+            if x is n or (len(x) == len(n) and x[0] == n[0] and _eq(x, n)):
+                return c
         if x and x[0] in ("closure", "lambda", "const"):
             return x
-        return tuple(sub(y) for y in x)
+        y = tuple(sub(z) for z in x)
+        if y and y[0] == "binop" and len(y) == 4 and y[1] == "Add":
+            return A.mk_add(y[2], y[3])
+        return y
     return sub(t)
 
 
@@ -266,13 +278,24 @@ def _raw_effects(p):
         if hidden and e[0] == "call" and e[1][1][0] == "attr" \
                 and e[1][1][1] in hidden:
             continue
+        if e[0] == "call" and e[1][1][0] == "attr" and e[1][1][2] in (
+                "update", "extend") and len(e[1][2]) == 1 and not e[1][3] \
+                and e[1][1][1][0] == "attr" and e[1][1][1][1][0] == "call" \
+                and e[1][1][1][1][1][0] == "global" \
+                and e[1][2][0][0] in ("attr", "param"):
+            # filling a container of an object constructed in this activation
+            # from a plain attribute: a store-like event -- such fillings of
+            # *distinct* containers commute (sorted with the stores around)
+            out.append("store %s += %s" % (A.fmt(e[1][1][1]),
+                                           A.fmt(e[1][2][0])))
+            continue
         if e[0] == "call":
             # (the call itself is an event even when its result is None;
             # only its operands are read as values)
             t = e[1]
             out.append("call " + A.fmt(
-                (t[0], t[1], tuple(_known_none(p, a) for a in t[2]))
-                + tuple(t[3:])))
+                (t[0], _known_none(p, t[1]),
+                 tuple(_known_none(p, a) for a in t[2])) + tuple(t[3:])))
         elif e[0] == "store":
             out.append("store %s = %s" % (A.fmt(e[1]),
                                           A.fmt(_known_none(p, e[2]))))
@@ -280,7 +303,20 @@ def _raw_effects(p):
             out.append("store %s[%s] = %s" % (A.fmt(e[1]), A.fmt(e[2]),
                                               A.fmt(_known_none(p, e[3]))))
         elif e[0] == "slice-store":
-            out.append("store %s[:] = %s" % (A.fmt(e[1]), A.fmt(e[2])))
+            t = e[1]
+            if t[0] == "attr" and t[1][0] == "call" and t[1][1][0] == \
+                    "global" and not any(
+                        x is not e and x[0] in ("call", "slice-store",
+                                                "item-store")
+                        and any(isinstance(y, tuple) and _occurs(y, t)
+                                for y in x[1:])
+                        for x in effects[:effects.index(e)]):
+                # x[:] = ys on a container of an object constructed in this
+                # activation and not touched since (still empty, C13.R8) is
+                # x.extend(ys)
+                out.append("store %s += %s" % (A.fmt(t), A.fmt(e[2])))
+            else:
+                out.append("store %s[:] = %s" % (A.fmt(e[1]), A.fmt(e[2])))
         elif e[0] == "close":
             out.append("close " + A.fmt(e[1]))
         elif e[0] == "del-item":
